@@ -122,6 +122,12 @@ def run(ctx):
     # having called it (the C04 R4.4 case analysis of the nine assignment arms, reported here)
     from rules.c04 import r44
     r44(_Renamed(ctx, 'R11.6'), prog)
+    # R11.7 the typed accessors of the two routes are the same projection of their evaluator's result: the whole C12 entry-point analysis
+    # (value of each type -> payload or the matching expected-type error carrying it, errors passed through unchanged) for the
+    # `_with_context` and the `_with_context_mut` forms, reported here - an accessor of one route that repairs or rewrites errors makes
+    # the read-only result differ from the mutable one although both evaluators agree
+    from rules import c12
+    c12.run(_Renamed(ctx, 'R11.7'))
 
 
 def witness(ctx):
